@@ -120,8 +120,9 @@ def shard(payload):
         st_.vacuity_ok += 1
         # seeded wrong reference (one extra delivery) must be refuted
         s.push()
+        s.add(n <= nlo + 2)          # any witness will do: keep the refutation query small
         s.add(model_v != ref_v + vol)
-        if z3_check(s, st_, 120000) != "sat":
+        if z3_check(s, st_, 300000) != "sat":
             raise HarnessError(f"seeded wrong reference not refuted: {label}")
         st_.mutants_refuted += 1
         s.pop()
@@ -200,7 +201,7 @@ def run(args):
     payloads = []
     # shards: split the fan-out range to use the cores; thorough uses finer obligations too
     if args.tier == "thorough":
-        NMAX, SMAX = 64, 16
+        NMAX, SMAX = 48, 12
     for topology in ("mesh", "all_to_all"):
         for relevant in (False, True):
             for what in ("total_hops", "max_traffic"):
